@@ -136,13 +136,14 @@ func init() {
 	reg(&PropDef{
 		ID:    "C10",
 		Title: "Reporting power equals the bonded stake of active selectors, counted once",
-		Funcs: fcNP("x/reporter/keeper.Keeper.HasMin"),
+		Funcs: fcNP("x/reporter/keeper.Keeper.HasMin", "x/reporter/keeper.Keeper.ReporterStake"),
 		Assumptions: []string{
 			"staking state as ghost: delegation(a,j)/ndelegations(a) is the sequence IterateDelegatorDelegations visits, staking.validators the validator store; Validator.TokensFromShares = shares*Tokens/DelegatorShares with banker's rounding (cosmos-sdk v0.50.9)",
 			"the minimum passed to HasMin is positive",
 		},
 		NotDecided: []string{
-			"ReporterStake (sum over the reporter's selectors with lock filter), selector cap, one reporter per selector, jail handling, delegation counters maintained by hooks: not yet under contract",
+			"ReporterStake is under contract for: jailed/unknown reporters rejected, the stored record's Total equals the returned stake and the listed backers sum to it, both delegation walks run to their end (a walk stopped without error is a violation), nothing else written. That the amount equals the bonded stake of exactly the unlocked selectors (equality of the two counting paths, lock filter) is not decided: the over-cap path reads the staking module through ValidatorI/GetDelegation, which are unconstrained reads here",
+			"selector cap, one reporter per selector, un-jailing, delegation counters maintained by hooks: not under contract",
 			"the same token never counts for two reporters within one window (history property)",
 		},
 	})
